@@ -1224,7 +1224,7 @@ func runC15(c *Ctx) {
 	for b := 0; b <= c15N; b++ {
 		total += c15Count(maxSteps, b, memo)
 	}
-	r.Extra["exhaustive"] = map[string]interface{}{"part": "sequential well-formed histories (bootstrap prefix list of 0-5 hosts + <= " + fmt.Sprint(maxSteps) + " add/remove events over 5 hosts)", "histories": total, "max_length_including_bootstrap": maxSteps + 1}
+	r.Extra["exhaustive_part"] = map[string]interface{}{"part": "sequential well-formed histories (bootstrap prefix list of 0-5 hosts + <= " + fmt.Sprint(maxSteps) + " add/remove events over 5 hosts)", "histories": total, "max_length_including_bootstrap": maxSteps + 1}
 	if dedicated {
 		if c15SelfTest() {
 			r.Obs("porcupine_selftest_ok", 1)
